@@ -4,6 +4,8 @@ import (
 	"context"
 	"time"
 
+	"google.golang.org/protobuf/proto"
+
 	"github.com/smart-core-os/sc-api/go/traits"
 	"github.com/smart-core-os/sc-golang/pkg/resource"
 )
@@ -69,7 +71,9 @@ func (m *Model) setLevelFromPreset(b *traits.Brightness) bool {
 	for _, p := range m.presets {
 		if p.Name == b.GetPreset().GetName() {
 			b.LevelPercent = p.levelPercent
-			b.Preset = p.LightPreset // sets the title if needed
+			// sets the title if needed; a copy, because b is the caller's message: the write filters it in place and the
+			// caller may change it afterwards, neither of which may reach the model's own preset
+			b.Preset = proto.Clone(p.LightPreset).(*traits.LightPreset)
 			return true
 		}
 	}
